@@ -6,3 +6,5 @@ EXPLANATION = 'Per DW_FORM constant: the attribute reader, the line-table attrib
 
 def run(rep, ctx):
     run_specs(rep, ctx, 'C03')
+    from ..guards import run_X_size
+    run_X_size(rep, ctx.g)
